@@ -6,6 +6,26 @@
 #include "common.h"
 #include <urcu/uatomic.h>
 #include <urcu/pointer.h>
+#include <urcu/tls-compat.h>
+
+/* bp: the per-thread pointer to the reader slot in the registry (library TLS) */
+struct urcu_bp_reader;
+extern DECLARE_URCU_TLS(struct urcu_bp_reader *, urcu_bp_reader);
+static struct urcu_bp_reader *slot_of[64];	/* by simulated tid */
+
+/* "its reader state never moves": once a thread has a slot it keeps that very slot until it exits */
+static void bp_slot_check(const char *where)
+{
+	struct urcu_bp_reader *p = URCU_TLS(urcu_bp_reader);
+	int tid = usim_tid();
+	if (!p || tid < 0 || tid >= 64)
+		return;
+	if (!slot_of[tid])
+		slot_of[tid] = p;
+	else if (slot_of[tid] != p)
+		usim_fail("bp-slot-moved", "thread T%d: reader slot observed at %p earlier is %p now (%s): registered twice or registry memory moved",
+			tid, (void *) slot_of[tid], (void *) p, where);
+}
 
 enum { OP_READ, OP_UPDATE, OP_SYNC, OP_LITMUS_W, OP_QS, OP_OFFON, OP_REREG, OP_NKINDS };
 static const char *const opname[] = { "read", "update", "sync", "litmus_w", "qs", "offon", "rereg" };
@@ -38,12 +58,17 @@ static void reg_sig_handler(int signo)
 	int cs;
 	struct obj *p;
 	(void) signo;
+	/* not (or no longer: thread exit) registered at this point: what follows is a new registration */
+	if (F->is_bp && !URCU_TLS(urcu_bp_reader) && usim_tid() >= 0 && usim_tid() < 64)
+		slot_of[usim_tid()] = NULL;
 	F->read_lock();
 	cs = orc_cs_begin(100 + usim_tid());
 	p = rcu_dereference(gptr);
 	if (p->a != p->version * 3 + 1)
 		usim_fail("reclaimed-object-read", "signal handler saw a reclaimed object");
 	orc_cs_end(cs);
+	if (F->is_bp)
+		bp_slot_check("in the signal handler");
 	F->read_unlock();
 	handler_runs++;
 }
@@ -161,6 +186,8 @@ static void *gp_thread(void *arg)
 		switch (op->kind) {
 		case OP_READ:
 			do_read(me, op);
+			if (F->is_bp)
+				bp_slot_check("after a read-side section");
 			if (reg_mode && F->is_bp && wave[me] == 0)
 				registered_in_wave0 = 1;
 			break;
